@@ -345,4 +345,37 @@ brk("C05", "c05-alpha-one-digit", "ttconv/imsc/style_properties.py", '      colo
 brk("C07", "c07-finish-last-only", "ttconv/vtt/writer.py", '    for paragraph in [p for p in self._paragraphs if p.get_end() is None]:\n', '    for paragraph in [p for p in self._paragraphs[-1:] if p.get_end() is None]:\n', "PAIR-default-end")
 ben("C07", "c07-benign-finish-listcopy", "ttconv/vtt/writer.py", '    for paragraph in [p for p in self._paragraphs if p.get_end() is None]:\n', '    for paragraph in list(self._paragraphs):\n      if paragraph.get_end() is not None:\n        continue\n')
 
+# ---------------------------------------------------------------------------------------- rules added after round 7
+LCD = "ttconv/filters/doc/lcd.py"
+brk("C16", "c16-fingerprint-begin-twice", LCD, "          region.get_begin() or 0,\n          region.get_end(),", "          region.get_begin() or 0,\n          region.get_begin(),", "LINT-l")
+brk("C16", "c16-anim-snapshot-set", "ttconv/filters/remove_animations.py", "    for step in list(element.iter_animation_steps()):", "    for step in set(element.iter_animation_steps()):", "LIVE")
+ben("C16", "c16-benign-anim-snapshot-tuple", "ttconv/filters/remove_animations.py", "    for step in list(element.iter_animation_steps()):", "    for step in tuple(element.iter_animation_steps()):")
+brk("C02", "c02-end-skips-same-ms", "ttconv/vtt/writer.py", "    end = isds[i + 1][0] if i + 1 < len(isds) else None\n", "    j = i + 1\n    while j < len(isds) and round(isds[j][0], 3) <= round(begin, 3):\n      j += 1\n    end = isds[j][0] if j < len(isds) else None\n", "SEQ-end")
+ben("C02", "c02-benign-end-via-index-local", "ttconv/vtt/writer.py", "    end = isds[i + 1][0] if i + 1 < len(isds) else None\n", "    j = i + 1\n    end = None\n    if j < len(isds):\n      end = isds[j][0]\n")
+brk("C03", "c03-anim-against-parent", ISD, "        anim_step.begin,\n        anim_step.end,\n        begin_time,\n        end_time\n", "        anim_step.begin,\n        anim_step.end,\n        parent_computed_begin,\n        parent_computed_end\n", "DEP-frame")
+brk("C04", "c04-chained-styles-aliased", ELS, "        for style_prop, value in self.style_elements[style_ref].styles.items():\n          style_element.styles.setdefault(style_prop, value)", "        referenced = self.style_elements[style_ref].styles\n        if len(style_element.styles) == 0:\n          style_element.styles = referenced\n          continue\n        for style_prop, value in referenced.items():\n          style_element.styles.setdefault(style_prop, value)", "STATE-share")
+ben("C04", "c04-benign-chained-styles-copied", ELS, "        for style_prop, value in self.style_elements[style_ref].styles.items():\n          style_element.styles.setdefault(style_prop, value)", "        referenced = self.style_elements[style_ref].styles\n        if len(style_element.styles) == 0:\n          style_element.styles = dict(referenced)\n          continue\n        for style_prop, value in referenced.items():\n          style_element.styles.setdefault(style_prop, value)")
+brk("C08", "c08-copy-lines-line-style", "ttconv/scc/caption_paragraph.py", "      for orig_text in orig_line.get_texts():\n        new_text = SccCaptionText(orig_text.get_text())\n        for style_type, style_value in orig_text.get_style_properties().items():", "      line_props = orig_line.get_current_text().get_style_properties()\n      for orig_text in orig_line.get_texts():\n        new_text = SccCaptionText(orig_text.get_text())\n        for style_type, style_value in line_props.items():", "ITEM-source")
+ben("C08", "c08-benign-copy-lines-local", "ttconv/scc/caption_paragraph.py", "        for style_type, style_value in orig_text.get_style_properties().items():", "        text_props = orig_text.get_style_properties()\n        for style_type, style_value in text_props.items():")
+DF = "ttconv/stl/datafile.py"
+brk("C09", "c09-region-reuse-ignores-align", DF, "    r_display_align: styles.DisplayAlignType = r.get_style(styles.StyleProperties.DisplayAlign)\n    assert r_display_align is not None\n    if r_display_align != display_align:\n      continue\n", "    assert r.get_style(styles.StyleProperties.DisplayAlign) is not None\n", "FIND-key")
+brk("C09", "c09-note-handler-resumes-late", "ttconv/stl/tf.py", '  return ("�", error.end)', '  return ("�", error.end + 1)', "FIN-resume")
+brk("C18", "c18-note-handler-logs-range", "ttconv/stl/tf.py", 'hex(error.object[error.start]))', '" ".join(hex(error.object[i]) for i in range(error.start, error.end)))', "FIN-resume")
+ben("C09", "c09-benign-note-handler-local", "ttconv/stl/tf.py", '  return ("�", error.end)', '  resume_at = error.end\n  return ("�", resume_at)')
+brk("C10", "c10-parser-not-closed", "ttconv/srt/reader.py", "        parser.feed(subtitle_text)\n        parser.close()\n", "        parser.feed(subtitle_text)\n", "PAIR-close")
+brk("C10", "c10-endtag-unknown-ignored", "ttconv/srt/reader.py", "  def handle_endtag(self, tag):\n", "  def handle_endtag(self, tag):\n    if tag.lower() not in (\"b\", \"i\", \"u\", \"font\"):\n      return\n\n", "PAIR-span")
+brk("C12", "c12-is-drop-frame-two-rates", "ttconv/time_code.py", "    return self._frame_rate.denominator == 1001\n", "    return self._frame_rate in (FPS_29_97, FPS_59_94)\n", "AGREE-dropmode")
+ben("C12", "c12-benign-is-drop-frame-local", "ttconv/time_code.py", "    return self._frame_rate.denominator == 1001\n", "    denominator = self._frame_rate.denominator\n    return denominator == 1001\n")
+brk("C14", "c14-content-interval-text-only", ISD, "      if isinstance(element, (model.Br, model.Span)) or \\\n", "      if isinstance(element, model.Text) or \\\n", "COVER-content")
+ben("C14", "c14-benign-content-interval-split", ISD, "      if isinstance(element, (model.Br, model.Span)) or \\\n", "      if isinstance(element, model.Br) or isinstance(element, model.Span) or \\\n")
+MODEL = "ttconv/model.py"
+brk("C15", "c15-remove-last-from-next", MODEL, "      self._last_child = child._previous_sibling\n", "      self._last_child = child._next_sibling\n", "FIN-links")
+brk("C15", "c15-push-no-back-link", MODEL, "    child._previous_sibling = self._last_child\n    child._next_sibling = None\n", "    child._previous_sibling = None\n    child._next_sibling = None\n", "FIN-links")
+ben("C15", "c15-benign-remove-locals", MODEL, "    if child._previous_sibling is not None:\n      child._previous_sibling._next_sibling = child._next_sibling\n\n    if child._next_sibling is not None:\n      child._next_sibling._previous_sibling = child._previous_sibling\n", "    before = child._previous_sibling\n    after = child._next_sibling\n\n    if before is not None:\n      before._next_sibling = after\n\n    if after is not None:\n      after._previous_sibling = before\n")
+brk("C17", "c17-disassembly-wrong-lookup", "ttconv/scc/disassembly.py", "        disassembly_code += str(extended_char.get_channel(scc_word.value))", "        disassembly_code += str(spec_char.get_channel(scc_word.value))", "NUL-known")
+brk("C18", "c18-vtt-whitelist-assigned", "ttconv/vtt/writer.py", "    if self._config.text_align:\n      supported_styles.update({", "    if self._config.text_align:\n      supported_styles = ({", "COND-supported")
+brk("C18", "c18-haspx-specified-value", ELS, "has_px(animation_step.value):", "has_px(element.get_style(animation_step.style_property)):", "NUL-arg")
+brk("C19", "c19-config-file-merged", "ttconv/tt.py", "      json_config_data = json.load(json_file)\n", "      json_file_data = json.load(json_file)\n    if json_config_data is None:\n      json_config_data = json_file_data\n    else:\n      json_config_data.update(json_file_data)\n", "FIN-config")
+ben("C19", "c19-benign-config-file-local", "ttconv/tt.py", "      json_config_data = json.load(json_file)\n", "      json_file_data = json.load(json_file)\n    json_config_data = json_file_data\n")
+
 VARIANTS = V
